@@ -5,6 +5,7 @@ from contextlib import ExitStack
 
 import pyccolo as pyc
 import pyccolo.emit_event as ee
+from swread import read_switches, reset_switches
 
 CUR, LOG, DEPTH = [], [], [0]
 
@@ -34,7 +35,7 @@ def run_case(case, ci):
     DEPTH[0] = 0
     tracers = []
     for ti, td in enumerate(case["tracers"]):
-        attrs = {"allow_reentrant_events": td["allow_re"]}
+        attrs = {"allow_reentrant_events": td["allow_re"], "multiple_threads_allowed": bool(td.get("multi", False))}
         for hi, hre in enumerate(td["handlers"]):
             def make(ti=ti, hi=hi):
                 def handler(self, ret, node, frame, evt, guard, **kw):
@@ -59,19 +60,27 @@ def run_case(case, ci):
     with ExitStack() as st:
         for t in tracers:
             st.enter_context(t.tracing_enabled())
-        for em in case["tops"]:
-            CUR.append(em)
-            try:
-                pyc.exec("x = 0", {}, {})
-                raised.append(False)
-            except RuntimeError:
-                raised.append(True)
-            finally:
-                CUR.pop()
-            flags.append([ee._allow_event_handling, ee._allow_reentrant_event_handling])
+        def body():
+            for em in case["tops"]:
+                CUR.append(em)
+                try:
+                    pyc.exec("x = 0", {}, {})
+                    raised.append(False)
+                except RuntimeError:
+                    raised.append(True)
+                finally:
+                    CUR.pop()
+                flags.append(read_switches())
+        if case.get("worker"):
+            import threading
+            th = threading.Thread(target=body)
+            th.start()
+            th.join(120)
+        else:
+            body()
     for t in tracers:
         type(t).clear_instance()
-    return {"log": list(LOG), "raised": raised, "flags": flags, "final": [ee._allow_event_handling, ee._allow_reentrant_event_handling, len(ee._TRACER_STACK)]}
+    return {"log": list(LOG), "raised": raised, "flags": flags, "final": read_switches() + [len(ee._TRACER_STACK)]}
 
 
 def main():
@@ -83,7 +92,7 @@ def main():
         except BaseException as e:
             import traceback
             out.append({"crash": "%s: %s" % (type(e).__name__, e), "tb": traceback.format_exc()[-800:]})
-            ee._allow_event_handling, ee._allow_reentrant_event_handling = True, False
+            reset_switches()
     print("@@" + json.dumps(out))
 
 
